@@ -24,6 +24,7 @@ type LoopSpec struct {
 	Invariants []*Clause
 	Decreases  SExpr
 	Modifies   []string
+	Ensures    []*Clause // hold on every exit from the loop (oldloop = state at loop entry)
 	Frame      []SExpr
 	FrameSrc   []string
 	HasFrame   bool
@@ -295,6 +296,12 @@ func (cs *Contracts) parseFile(p *Program, pkgPath, fname string, f *ast.File) e
 					return fail(err)
 				}
 				ls.Invariants = append(ls.Invariants, cl)
+			case "ensures":
+				cl, err := parseClause(r2, l.pos)
+				if err != nil {
+					return fail(err)
+				}
+				ls.Ensures = append(ls.Ensures, cl)
 			case "frame":
 				ls.HasFrame = true
 				for _, part := range splitTop(strings.TrimSpace(strings.TrimPrefix(r2, "frame")), ',') {
